@@ -1,6 +1,78 @@
-(* C01: placeholder until the proofs are merged; a concrete run of the model. *)
+(* C01: Expression evaluation conforms to the language definition.
+
+   Spec/Sem.v states the documented operator semantics organised by operand TYPES (promotion, int wrap
+   around, truncated division, string concatenation / repetition / number coercion, equality across all
+   types, ordering within numbers and within strings, falsey set); the theorems below say that the VM's
+   instruction semantics (Model/Vm.v exec_op, the transcription of machine.go/oplogic.go) IS that
+   semantics, for every operator and every pair of operands.  The precedence ladder and the
+   equivalence of the one-pass compiler with grammar ; code generator (T2) and of code execution with
+   the big-step semantics over names (T1) are stated in Spec/Syntax.v, Model/Compile.v, Spec/AstSem.v and
+   are TESTED on every generated program by the suites t1check/t2check; their Coq proofs are in progress
+   (DESIGN.md section 0). *)
+From Coq Require Import ZArith.
+From RecordUpdate Require Import RecordSet.
+Import RecordSetNotations.
+From BCL Require Import Model.Vm Spec.Sem Proofs.VmSpecProofs.
+Open Scope N_scope.
+
+(* every binary operator on every pair of operand values: the VM computes Sem.binop *)
+Theorem C01_binop_spec : forall p instr o a b stk m,
+  vm_inv m -> bop_of instr = Some o -> stack m = b :: a :: stk ->
+  exec_op p instr m = binop_outcome p instr o a b stk m.
+Proof. first [exact VmSpecProofs.C01_binop_spec_inv | apply VmSpecProofs.C01_binop_spec_inv]. Qed.
+Print Assumptions C01_binop_spec.
+
+(* the same without any side condition (the string + nil cell leaves tosMax alone) *)
+Theorem C01_binop_spec_raw : forall p instr o a b stk m,
+  bop_of instr = Some o -> stack m = b :: a :: stk ->
+  exec_op p instr m = binop_outcome_raw p instr o a b stk m.
+Proof. first [exact VmSpecProofs.C01_binop_spec_raw | apply VmSpecProofs.C01_binop_spec_raw]. Qed.
+Print Assumptions C01_binop_spec_raw.
+
+(* unary minus, unary plus, not *)
+Theorem C01_unop_spec : forall p instr o a stk m,
+  uop_of instr = Some o -> stack m = a :: stk ->
+  exec_op p instr m =
+  match Sem.unop o a with
+  | RVal v => (m <| stack := v :: stk |>, VOk)
+  | _ => (m, VErr (pos_at p (pc m)) (unop_msg o a))      (* only RTypeError occurs: unop_shape *)
+  end.
+Proof. first [exact VmSpecProofs.C01_unop_spec | apply VmSpecProofs.C01_unop_spec]. Qed.
+Print Assumptions C01_unop_spec.
+
+(* the falsey set used by not / and / or / JFALSE is the documented one *)
+Theorem C01_falsey : forall v, is_falsey v = Sem.falsey v.
+Proof. first [exact VmSpecProofs.C01_falsey | apply VmSpecProofs.C01_falsey]. Qed.
+Print Assumptions C01_falsey.
+
+(* short circuit: the conditional jump is taken iff the operand is falsey, and leaves the operand on the stack *)
+Theorem C01_jfalse : forall p m j m1 a stk,
+  read_u16 m = Some (j, m1) -> stack m = a :: stk ->
+  exec_op p opJFALSE m = (if Sem.falsey a then jump_to p m1 (pc m1 + j) else m1, VOk)
+  /\ stack (fst (exec_op p opJFALSE m)) = stack m /\ tos (fst (exec_op p opJFALSE m)) = tos m.
+Proof. first [exact VmSpecProofs.C01_jfalse | apply VmSpecProofs.C01_jfalse]. Qed.
+Print Assumptions C01_jfalse.
+
+(* int arithmetic wraps at 64 bits *)
+Local Open Scope Z_scope.
+Theorem C01_int_wrap : forall z, - 2^63 <= wrap64 z < 2^63.
+Proof. first [exact VmSpecProofs.C01_int_wrap | apply VmSpecProofs.C01_int_wrap]. Qed.
+Local Close Scope Z_scope.
+Print Assumptions C01_int_wrap.
+
+(* int division truncates toward zero; MinInt64 / -1 wraps *)
+Local Open Scope Z_scope.
+Theorem C01_int_div : forall x y, - 2^63 <= x < 2^63 ->
+  int_div x y = if (x =? - 2^63) && (y =? -1) then - 2^63 else x ÷ y.
+Proof. first [exact VmSpecProofs.C01_int_div | apply VmSpecProofs.C01_int_div]. Qed.
+Local Close Scope Z_scope.
+Print Assumptions C01_int_div.
+
+(* non-vacuity: a program mixing all operator levels and all value kinds *)
 From BCL Require Import Model.Api.
 Example C01_example :
-  pr_ok (parse_whole (bs "input") (bs "var x = 1 print x + 2 * 3")) = true.
-Proof. vm_compute. reflexivity. Qed.
-Print Assumptions C01_example.
+  match snd (interpret (bs "input") (bs "var s = ""ab"" print 1 + 2 * 3 - 4 / 2 print s + 1.5 + nil print s * 2 == ""abab"" and not 0.0 or 7 print -(1 < 2.0)") false false false) with
+  | IRun o rr => rr_res rr = VErr 112 (bs "NEG: invalid type: bool, expected number") /\ length o = 3%nat
+  | _ => False
+  end.
+Proof. vm_compute. split; reflexivity. Qed.
